@@ -35,7 +35,9 @@ numpy primitives are modelled by their contract on the inputs they get here:
   bookkeeping is made for an arbitrary database satisfying `Db.validB` (sorted
   projections, `xinds` a permutation of `0..n-1` that sorts `x`), which the driver
   *checks* on the arrays of the real object.
-* `searchsorted(a, v, "left"/"right")` on a sorted `a` — number of elements `< v` / `≤ v`.
+* `searchsorted(a, v, "left"/"right")` on a sorted `a` — number of elements `< v` / `≤ v`
+  (`ssLeft/ssRight`); numpy's bisection is modelled too (`bisect`, `ssLeftBin/ssRightBin`) and
+  proved equal to that count on sorted input (`C18_searchsorted_bisect`).
 * `np.interp` on non-decreasing abscissae — the segment is found by walking instead of
   by bisection; same `j` (last index with `xp[j] ≤ t`), same formula, same clamping.
 
@@ -90,6 +92,25 @@ def ssLeft (a : List α) (v : α) : Nat := a.countP (fun p => decide (p < v))
 /-- `np.searchsorted(a, v, side="right")` for sorted `a` -/
 def ssRight (a : List α) (v : α) : Nat := a.countP (fun p => decide (p ≤ v))
 
+/-- numpy's `npy_binsearch`: `lo = 0; hi = n; while lo < hi: mid = lo + (hi - lo) / 2;
+if p a[mid] then lo = mid + 1 else hi = mid`; returns `lo`.  `p x = (x < v)` for side "left",
+`p x = (x ≤ v)` for side "right".  Fuel = `hi - lo` always suffices (`bisect_eq_countP`). -/
+def bisect {β : Type} (p : β → Bool) (a : List β) : Nat → Nat → Nat → Nat
+  | 0, lo, _ => lo
+  | fuel + 1, lo, hi =>
+    if lo < hi then
+      let mid := lo + (hi - lo) / 2
+      match a[mid]? with
+      | some x => if p x then bisect p a fuel (mid + 1) hi else bisect p a fuel lo mid
+      | none => lo
+    else lo
+
+/-- `np.searchsorted(a, v, side="left")` as numpy computes it (bisection) -/
+def ssLeftBin (a : List α) (v : α) : Nat := bisect (fun p => decide (p < v)) a a.length 0 a.length
+
+/-- `np.searchsorted(a, v, side="right")` as numpy computes it (bisection) -/
+def ssRightBin (a : List α) (v : α) : Nat := bisect (fun p => decide (p ≤ v)) a a.length 0 a.length
+
 /-- non-decreasing (adjacent check, linear time) -/
 def sortedB : List α → Bool
   | [] => true
@@ -114,6 +135,12 @@ def Db.validB (db : Db α) : Bool :=
 def bounds (db : Db α) (q : Query α) : Nat × Nat :=
   if q.restricted then
     (ssLeft (db.rows.map (·.proj)) q.sl, ssRight (db.rows.map (·.proj)) q.su)
+  else (0, db.rows.length)
+
+/-- `(i_l, i_u)` with the bisection of numpy instead of its specification -/
+def boundsBin (db : Db α) (q : Query α) : Nat × Nat :=
+  if q.restricted then
+    (ssLeftBin (db.rows.map (·.proj)) q.sl, ssRightBin (db.rows.map (·.proj)) q.su)
   else (0, db.rows.length)
 
 /-- the entries whose weights are computed: `self.y[i_l:i_u]`, `self.x[i_l:i_u]` -/
@@ -225,6 +252,8 @@ private def db0 : Db Rat := mk [r 3 10 1, r 1 30 2, r 2 20 1, r 2 5 4, r 5 7 1]
 #guard bounds db0 ⟨true, 2, 2⟩ == (1, 3)
 #guard bounds db0 ⟨true, 6, 9⟩ == (5, 5)
 #guard bounds db0 ⟨false, 6, 9⟩ == (0, 5)
+#guard boundsBin db0 ⟨true, 2, 3⟩ == (1, 4) && boundsBin db0 ⟨true, 2, 2⟩ == (1, 3)
+#guard boundsBin db0 ⟨true, 6, 9⟩ == (5, 5) && boundsBin db0 ⟨true, 0, 1⟩ == (0, 1)
 #guard xview db0 1 4 == [1, 2, 0]
 #guard (xsWindow db0 ⟨true, 2, 3⟩).map (·.map (·.x)) == some [5, 10, 20]
 #guard (match predict db0 ⟨true, 2, 3⟩ with | .val m _ => m == (20 + 20 + 10) / 6 | _ => false)
